@@ -47,6 +47,9 @@ var errRecursion = errors.New("more than 60 interceptor calls in one request")
 // initialCommon names the interceptors of the caller-owned slice both instances are constructed from.
 var initialCommon = []string{"i0"}
 
+// nInst is the number of SimpleHTTP instances of the world (2; 3 in the shared-client pass).
+var nInst = 2
+
 func newWorld() *world {
 	w := &world{ics: map[string]*network.Interceptor{}}
 	mk := func(name string, fail bool) {
@@ -73,7 +76,7 @@ func newWorld() *world {
 	for _, n := range initialCommon {
 		common = append(common, w.ics[n])
 	}
-	for k := 0; k < 2; k++ {
+	for k := 0; k < nInst; k++ {
 		c := &http.Client{Transport: &stubT{w, k}}
 		w.clients = append(w.clients, c)
 		h := network.NewSimpleHTTPWithClientAndInterceptors(c, common...)
@@ -85,7 +88,7 @@ func newWorld() *world {
 	}
 	// two spare clients per instance to switch to (an http.Client belongs to one SimpleHTTP: wrapping the
 	// same client by two instances chains them, which is outside this property)
-	for k := 2; k < 6; k++ {
+	for k := nInst; k < 3*nInst; k++ {
 		w.clients = append(w.clients, &http.Client{Transport: &stubT{w, k}})
 	}
 	return w
@@ -274,7 +277,7 @@ func ops() []op {
 	}
 	setClient := func(k int) op {
 		return op{fmt.Sprintf("SetHTTPClient(client%d)", k), func(w *world, s int) string {
-			w.https[s].SetHTTPClient(w.clients[2+2*s+k])
+			w.https[s].SetHTTPClient(w.clients[nInst+2*s+k])
 			return ""
 		}}
 	}
@@ -283,7 +286,7 @@ func ops() []op {
 		{"Clear", func(w *world, s int) string { w.https[s].ClearInterceptor(); w.model[s] = nil; return "" }},
 		setClient(0), setClient(1),
 		{"SetHTTPClient(the other instance's client)", func(w *world, s int) string {
-			w.https[s].SetHTTPClient(w.https[1-s].GetHTTPClient())
+			w.https[s].SetHTTPClient(w.https[(s+1)%nInst].GetHTTPClient())
 			return ""
 		}},
 		{"SetHTTPClient(same client again)", func(w *world, s int) string { w.https[s].SetHTTPClient(w.https[s].GetHTTPClient()); return "" }},
@@ -336,7 +339,11 @@ func run(all []op, prog []step) (fail string, key string) {
 			}
 		}
 	}
-	return "", fmt.Sprint(w.model) + "|" + lib.Canon(w.https[0], w.https[1])
+	var objs []interface{}
+	for _, h := range w.https {
+		objs = append(objs, h)
+	}
+	return "", fmt.Sprint(w.model) + "|" + lib.Canon(objs...)
 }
 
 func progNames(all []op, prog []step) []string {
@@ -356,7 +363,7 @@ func search(r *lib.Report, all []op, depth int, seen map[string]bool, trans *int
 		var next [][]step
 		for _, prog := range frontier {
 			for oi := range all {
-				for s := 0; s < 2; s++ {
+				for s := 0; s < nInst; s++ {
 					np := append(append([]step{}, prog...), step{oi, s})
 					*trans++
 					lib.Beat(nil)
@@ -874,6 +881,27 @@ func main() {
 		}
 		sort.Strings(ks)
 		os.WriteFile(f, []byte(strings.Join(ks, "\n")), 0644)
+	}
+	// three instances, the client-wiring operations only: one client adopted by all three, re-adopted, replaced
+	{
+		nInst = 3
+		initialCommon = []string{"i0"}
+		var wiring []op
+		for _, o := range all {
+			if o.name == "Get" || o.name == "SetHTTPClient(client0)" || strings.Contains(o.name, "other instance") || strings.Contains(o.name, "same client again") {
+				wiring = append(wiring, o)
+			}
+		}
+		d3 := 3
+		if r.Tier == "thorough" {
+			d3 = 4
+		}
+		seen3 := map[string]bool{}
+		search(r, wiring, d3, seen3, &trans, &samples)
+		for k := range seen3 {
+			seen["3:"+k] = true
+		}
+		nInst = 2
 	}
 	trans += defaultConstructors(r)
 	trans += nestedRequests(r)
